@@ -94,9 +94,20 @@ fn built_packet_with(r: &mut Report, rng: &mut Rng, vel: Option<[i8; 4]>) {
         _ => rng.uni(-1.0, 1.0),
     };
     let lat = rlat + 3.3 * frac(rng);
-    let lon = rlon + 6.7 * frac(rng);
-    if !(-90.0..=90.0).contains(&lat) || !(-180.0..=180.0).contains(&lon) {
-        r.class("built:skipped(truth outside the globe's numeric range)");
+    #[allow(unused_mut, unused_assignments)]
+    let mut lon = rlon + 6.7 * frac(rng);
+    if !(-90.0..=90.0).contains(&lat) {
+        r.class("built:skipped(truth beyond a pole)");
+        return;
+    }
+    // A true position on the other side of the 180th meridian is not judged: the transmitted field is the low 20 bits
+    // of (degrees * 1e7) >> 7, whose period (13.42 deg) does not divide 360 deg, so that across the discontinuity two
+    // different longitudes inside the same +-6.7 deg window share one field value (e.g. reference 179.9: 175.54 and
+    // -173.42). No decoder can tell them apart; see DESIGN 6.10.
+    if !(-180.0..180.0).contains(&lon) {
+        lon = crate::oracle::geo::wrap180(lon);
+        r.class("built:truth-across-the-antimeridian(position not judged: two preimages)");
+        let _ = lon;
         return;
     }
     let f = Fields {
@@ -167,7 +178,8 @@ fn built_packet_with(r: &mut Report, rng: &mut Rng, vel: Option<[i8; 4]>) {
             if (d.latitude - lat).abs() > step {
                 bad.push(format!("latitude {} vs {} (off by {:.3} steps)", d.latitude, lat, (d.latitude - lat).abs() / step));
             }
-            if (d.longitude - lon).abs() > step {
+            let dl = crate::oracle::geo::dlon(d.longitude, lon).abs();
+            if dl > step {
                 bad.push(format!("longitude {} vs {} (off by {:.3} steps)", d.longitude, lon, (d.longitude - lon).abs() / step));
             }
             if !bad.is_empty() {
@@ -178,7 +190,7 @@ fn built_packet_with(r: &mut Report, rng: &mut Rng, vel: Option<[i8; 4]>) {
             if ok {
                 r.class(if xxtea::key_table_b(ts) { "built:ok(key table B)" } else { "built:ok(key table A)" });
                 r.distinct(fnv(&p));
-                r.max("position_error_steps", ((d.latitude - lat).abs().max((d.longitude - lon).abs())) / step);
+                r.max("position_error_steps", ((d.latitude - lat).abs().max(dl)) / step);
                 if r.samples.len() < 3 {
                     r.sample(json!({"packet": hexs(&p), "ts": ts, "reference": [rlat, rlon], "truth": [lat, lon], "decoded": [d.latitude, d.longitude]}));
                 }
@@ -190,7 +202,7 @@ fn built_packet_with(r: &mut Report, rng: &mut Rng, vel: Option<[i8; 4]>) {
 pub fn run(a: &Args, r: &mut Report) {
     r.rule = "random: byte strings of length 0..40 (magic byte forced valid 70 %), timestamps incl. 0 / 2^23 / u32::MAX, references incl. NaN, +-inf, +-1e300, +-0, poles, i32 limits -> no panic, numbers finite, track in [0,360); built: field tuples packed and XXTEA-encrypted by the independent implementation, truth within +-3.3 / +-6.7 deg of a reference anywhere on the globe -> address, type, flags, altitude, gps equal, position within one 128e-7 deg step. distinct = distinct (packet, timestamp) with a correct verdict".into();
     r.assumptions.push("reference_lat/reference_lon of a record echo the caller's input and are not 'numbers of the record'".into());
-    r.assumptions.push("the decodable window is numeric (truth = reference + delta without wrapping across +-180 deg)".into());
+    r.assumptions.push("true positions across the 180th meridian from the reference are not judged: the 20-bit longitude field has two preimages inside the window there (protocol limitation, DESIGN 6.10)".into());
     if let Some(p) = &a.replay {
         let v: serde_json::Value = serde_json::from_str(&std::fs::read_to_string(p).unwrap()).unwrap();
         let rp = &v["replay"];
